@@ -120,7 +120,7 @@ Theorem C03_history_provenance : forall cfg h t0 script k gq o r,
 Proof.
   intros cfg h t0 script k gq o r obs Hk Ho Hr.
   pose proof (history_safe (flat_map (fun o => x_events o ++ x_bg_events o) obs) cfg h (init_world t0 script)
-                (InvS_empty _) (incl_refl _) k gq o r Hk Ho Hr) as [Hb|(q' & (a & c & rep & Hin) & Hu)].
+                (InvS_empty _ _) (incl_refl _) k gq o r Hk Ho Hr) as [Hb|(q' & (a & c & rep & Hin) & Hu)].
   - left. exact Hb.
   - right. exists q', a, c, rep. auto.
 Qed.
